@@ -264,7 +264,7 @@ func (w *c5world) gen(g *zsim.Stream, depth int, budget *int) *c5node {
 		n.enab = w.drawEnab(g)
 		w.leaves = append(w.leaves, n)
 	case c5Tee:
-		k := 2 + g.Draw(2)
+		k := g.Weighted(1, 2, 8, 6) // also the degenerate tees: of nothing (a no-op core) and of one core (that core itself)
 		for i := 0; i < k; i++ {
 			n.kids = append(n.kids, w.gen(g, depth+1, budget))
 		}
@@ -410,6 +410,7 @@ const (
 	c5feSugarF
 	c5feSlog
 	c5feGrpc
+	c5feSugarNamed
 	c5nFront
 )
 
@@ -586,6 +587,62 @@ func runC05(c *Ctx) {
 				l, sv = zapcore.ErrorLevel, slog.LevelError
 			}
 			sl.Log(context.Background(), sv, op.msg, slog.Any("o", c5marsh{w, op.msg}))
+		case c5feSugarNamed:
+			// the level-named sugared methods, in their four styles
+			style := 0
+			for _, ch := range []byte(op.msg) {
+				style += int(ch)
+			}
+			style %= 4
+			obj := c5marsh{w, op.msg}
+			switch {
+			case l <= zapcore.DebugLevel:
+				l = zapcore.DebugLevel
+				switch style {
+				case 0:
+					sug.Debugw(op.msg, "o", obj)
+				case 1:
+					sug.Debugf("%s", op.msg)
+				case 2:
+					sug.Debugln(op.msg)
+				default:
+					sug.Debug(op.msg)
+				}
+			case l == zapcore.InfoLevel:
+				switch style {
+				case 0:
+					sug.Infow(op.msg, "o", obj)
+				case 1:
+					sug.Infof("%s", op.msg)
+				case 2:
+					sug.Infoln(op.msg)
+				default:
+					sug.Info(op.msg)
+				}
+			case l == zapcore.WarnLevel:
+				switch style {
+				case 0:
+					sug.Warnw(op.msg, "o", obj)
+				case 1:
+					sug.Warnf("%s", op.msg)
+				case 2:
+					sug.Warnln(op.msg)
+				default:
+					sug.Warn(op.msg)
+				}
+			default:
+				l = zapcore.ErrorLevel
+				switch style {
+				case 0:
+					sug.Errorw(op.msg, "o", obj)
+				case 1:
+					sug.Errorf("%s", op.msg)
+				case 2:
+					sug.Errorln(op.msg)
+				default:
+					sug.Error(op.msg)
+				}
+			}
 		case c5feGrpc:
 			switch {
 			case l <= zapcore.InfoLevel:
